@@ -28,6 +28,12 @@ def supported(d, cfg):
     if cfg.startswith("back11") and has_smtab: return False     # back11 does not compile sm-internal tables with const events
     has_xp = any(st["kind"] == "exitpt" for m in d.machines.values() for st in m["states"].values())
     if cfg.startswith("back11") and has_xp: return False        # back11 does not compile exit points (the forwarder passes a const event)
+    if cfg.startswith("back11"):
+        # back11 does not compile a chain (two or more rows for one source and event) that contains an explicit-entry / entry-point row
+        for m in d.machines.values():
+            groups = {}
+            for r in m["table"]: groups.setdefault((r["src"], r["ev"]), []).append(r)
+            if any(len(g) > 1 and any(r["ek"] != "plain" for r in g) for g in groups.values()): return False
     return True
 
 # ---------------------------------------------------------------- building
@@ -64,8 +70,8 @@ def build_many(pairs, flags=(), tag="", fe="functor"):
 # ---------------------------------------------------------------- scripts
 class ScriptGen:
     """seeded random walks over the API of a definition"""
-    def __init__(self, d, seed, throws=0.15, subs=0.25, enq=0.1, drain=0.1, restart=0.05, maxcalls=7, maxplan=12, startsubs=0.1, copy=0.0, ninst=1, evbias=0.0, destroy=0.0, saveload=0.0, moves=0.0):
-        self.moves = moves; self.copy = copy; self.ninst = ninst; self.evbias = evbias; self.destroy = destroy; self.saveload = saveload
+    def __init__(self, d, seed, throws=0.15, subs=0.25, enq=0.1, drain=0.1, restart=0.05, maxcalls=7, maxplan=12, startsubs=0.1, copy=0.0, ninst=1, evbias=0.0, destroy=0.0, saveload=0.0, moves=0.0, fork=0.0):
+        self.fork = fork; self.moves = moves; self.copy = copy; self.ninst = ninst; self.evbias = evbias; self.destroy = destroy; self.saveload = saveload
         self.hot = sorted(set(e for m in d.machines.values() for st in m["states"].values() for e in st["defers"] if e in d.events))
         self.d = d; self.rnd = random.Random(seed); self.throws = throws; self.subs = subs; self.enq = enq
         self.drain = drain; self.restart = restart; self.maxcalls = maxcalls; self.maxplan = maxplan; self.startsubs = startsubs
@@ -98,6 +104,16 @@ class ScriptGen:
     def execution(self):
         self.sticky = {g: self.rnd.choice("01") for g in self.d.sticky}
         L = ["reset", "start 0 %s %s" % (self.gv(), self.plan(False, self.startsubs))]
+        if self.fork and self.ninst > 1 and self.rnd.random() < self.fork:
+            # fork: a history on one object, then a copy (or a save/load) of it, then the same kind of continuation on the copy and on the
+            # original - what the copy remembers (history, queues, state data) only shows when the copy is driven further
+            for _ in range(self.rnd.randint(2, self.maxcalls)):
+                L.append("pe 0 %s %d %s %s" % (self.rnd.choice(self.d.evnames), self.newp(), self.gv(), self.plan()))
+            if self.saveload and self.rnd.random() < 0.5: L.append("saveload 0 1 %s" % self.rnd.choice(["text", "binary"]))
+            else: L.append("%s 0 1" % self.rnd.choice(["copy", "assign"]))
+            for _ in range(self.rnd.randint(1, 4)):
+                L.append("pe %d %s %d %s %s" % (self.rnd.choice([1, 1, 0]), self.rnd.choice(self.d.evnames), self.newp(), self.gv(), self.plan()))
+            return L
         running = {0: True}          # live instances -> started?
         burnt = set()                # slots of moved-from objects
         sources = set()              # instances that were copied from (never destroyed: back closures may refer to them)
